@@ -86,7 +86,9 @@ def run_job(j):
             ex = core.Explorer(fn, j["params"], tier=j.get("tier", "quick"), seed=j.get("seed", 0),
                                budget_s=j["budget_s"], max_paths=j["max_paths"],
                                branch_timeout_ms=j["branch_timeout_ms"],
-                               oblige_timeout_ms=j["oblige_timeout_ms"]).run()
+                               oblige_timeout_ms=j["oblige_timeout_ms"],
+                               shard=tuple(j["shard"]) if j.get("shard") else None,
+                               stop_after_cex=j.get("stop_after_cex")).run()
         finally:
             _monitor_stop(tool)
         counts = dict(discharged=0, cex=0, unknown=0, reach=0, unreach=0)
